@@ -1,10 +1,79 @@
 package main
 
-import "reflect"
+import (
+	"reflect"
+	"time"
+)
 
-// Declared struct types of the C18 universe.  reflect cannot create named or recursive types,
-// so these are written out; spec/GoTypes.tla (Defs) mirrors them and the trace specification
-// compares the driver's reflection of each type (c18ProjectType) with that table.
+// Declared types of the C18 universe.  reflect cannot create named or recursive types, nor
+// unexported fields, so these are written out; spec/GoTypes.tla (Defs) mirrors them and the trace
+// specification compares the driver's reflection of each type (c18ProjectType) with that table.
+
+// defined types over a non-struct kind (no methods)
+type NI8 int8
+type NU8 uint8
+type NStr string
+type NF32 float32
+type NBytes []byte
+type NPI8 *int8
+type NSl []int8
+type NMap map[string]int8
+
+// structs whose fields encoding/json does not (all) see
+type Stamp time.Time // time.Time's unexported fields, none of its methods
+
+type Empty struct{}
+
+type NX struct {
+	a int8 `json:"a"`
+	B int8 `json:"b"`
+}
+
+type inner struct {
+	A int8 `json:"a"`
+}
+
+type XE struct {
+	inner
+	B string `json:"b"`
+}
+
+type HS struct {
+	S Stamp  `json:"s"`
+	E Empty  `json:"e"`
+	P *Stamp `json:"p,omitempty"`
+}
+
+// a defined map type embedded (encoding/json writes it under its type name)
+type EM struct {
+	NMap
+	B int8 `json:"b"`
+}
+
+// recursion closing on a named container type
+type Items []Item
+
+type Item struct {
+	Sub Items `json:"sub"`
+	V   int8  `json:"v"`
+}
+
+type Index map[string]Entry
+
+type Entry struct {
+	Sub Index `json:"sub"`
+	V   int8  `json:"v"`
+}
+
+type PItems []*PItem
+
+type PItem struct {
+	Sub PItems `json:"sub,omitempty"`
+	V   int8   `json:"v"`
+}
+
+// a slice type that is its own element type
+type Tree []Tree
 
 type N1 struct {
 	A int8 `json:"a"`
@@ -157,6 +226,16 @@ var c18Named = map[string]reflect.Type{
 	"GA": reflect.TypeOf(GA{}), "GB": reflect.TypeOf(GB{}),
 	"TA": reflect.TypeOf(TA{}), "TB": reflect.TypeOf(TB{}), "TC": reflect.TypeOf(TC{}),
 	"UA": reflect.TypeOf(UA{}), "UB": reflect.TypeOf(UB{}), "UC": reflect.TypeOf(UC{}),
+
+	"NI8": reflect.TypeOf(NI8(0)), "NU8": reflect.TypeOf(NU8(0)), "NStr": reflect.TypeOf(NStr("")),
+	"NF32": reflect.TypeOf(NF32(0)), "NBytes": reflect.TypeOf(NBytes(nil)), "NPI8": reflect.TypeOf(NPI8(nil)),
+	"NSl": reflect.TypeOf(NSl(nil)), "NMap": reflect.TypeOf(NMap(nil)),
+	"Stamp": reflect.TypeOf(Stamp{}), "Empty": reflect.TypeOf(Empty{}), "NX": reflect.TypeOf(NX{}),
+	"EM": reflect.TypeOf(EM{}), "inner": reflect.TypeOf(inner{}), "XE": reflect.TypeOf(XE{}), "HS": reflect.TypeOf(HS{}),
+	"Items": reflect.TypeOf(Items(nil)), "Item": reflect.TypeOf(Item{}),
+	"Index": reflect.TypeOf(Index(nil)), "Entry": reflect.TypeOf(Entry{}),
+	"PItems": reflect.TypeOf(PItems(nil)), "PItem": reflect.TypeOf(PItem{}),
+	"Tree": reflect.TypeOf(Tree(nil)),
 
 	"N1":      reflect.TypeOf(N1{}),
 	"N2":      reflect.TypeOf(N2{}),
